@@ -145,10 +145,14 @@ Apply(P, ln) ==
     [] ln.k = "in" ->
          IF S.ph = "recv" /\ S.nresp = 0
          THEN \* continuation of a message that is still being received
-              [P EXCEPT ![ln.c].wf = IF ln.cls = "Rest" /\ S.wf = "partial" THEN "good" ELSE "hostile",
-                        ![ln.c].want = IF ln.cls = "Rest" /\ S.wf = "partial" /\ ln.pr = S.want THEN S.want ELSE ""]
-         ELSE [P EXCEPT ![ln.c].ph = "recv", ![ln.c].nresp = 0, ![ln.c].sc = FALSE,
-                        ![ln.c].lastst = 0, ![ln.c].wf = ln.wf, ![ln.c].want = ln.pr]
+              \* (a Rest completes the prefix it belongs to: then the whole is a good message)
+              LET whole == ln.cls = "Rest" /\ S.wf = "partial" /\ ln.pr = S.want
+              IN [P EXCEPT ![ln.c].wf = IF whole THEN "good" ELSE "hostile",
+                           ![ln.c].want = IF whole THEN S.want ELSE ""]
+         ELSE \* a new message; the tail of a request delivered where a message starts is just bytes
+              [P EXCEPT ![ln.c].ph = "recv", ![ln.c].nresp = 0, ![ln.c].sc = FALSE, ![ln.c].lastst = 0,
+                        ![ln.c].wf = IF ln.cls = "Rest" THEN "hostile" ELSE ln.wf,
+                        ![ln.c].want = IF ln.cls = "Rest" THEN "" ELSE ln.pr]
     [] ln.k = "req" -> IF S.ph = "recv" THEN [P EXCEPT ![ln.c].ph = "disp"] ELSE P
     [] ln.k = "rej" -> IF S.ph = "recv" THEN [P EXCEPT ![ln.c].ph = "rej"] ELSE P
     [] ln.k = "resp" -> [P EXCEPT ![ln.c].nresp = @ + 1, ![ln.c].sc = ln.sc, ![ln.c].lastst = ln.st]
